@@ -5,8 +5,8 @@
 (*     an open sequence is a strict prefix of a well-formed item.                                           *)
 EXTENDS Encoder, TLC, Json
 CONSTANTS Tier, MaxCalls
-VARIABLES ph, calls
-vars == <<ph, calls>>
+VARIABLES ph, calls, it
+vars == <<ph, calls, it>>
 Pow2(k) == [i \in 1..8 |-> IF i = 8 - (k \div 8) THEN 2^(k % 8) ELSE 0]
 Ks == IF Tier = "quick" THEN {0, 4, 5, 7, 8, 9, 15, 16, 17, 31, 32, 33, 63} ELSE 0..63
 Boundary == { Add(Pow2(k), FromNat(d)) : k \in Ks, d \in 0..2 } \cup { Sub(Pow2(k), FromNat(d)) : k \in Ks, d \in 0..2 }
@@ -20,21 +20,34 @@ Alphabet == { [m |-> "u8", neg |-> FALSE, mag |-> FromNat(1)], [m |-> "array", n
               [m |-> "array", n |-> FromNat(2)], [m |-> "map", n |-> FromNat(1)], [m |-> "begin_array"], [m |-> "begin_map"], [m |-> "end"],
               [m |-> "tag", n |-> FromNat(1)], [m |-> "str", b |-> <<97>>], [m |-> "begin_str"], [m |-> "begin_bytes"], [m |-> "bytes", b |-> <<>>],
               [m |-> "null"] }
-Init == ph = "start" /\ calls = <<>>
-Next == \/ ph = "start" /\ ph' = "single" /\ calls' \in { <<c>> : c \in { x \in SingleCalls : FitsM(x.m, x.neg, x.mag) } }
+\* iterator encoders: element counts x every kind of size hint a well-behaved iterator can give
+NoIt == [kind |-> "array", xs |-> <<>>, low |-> 0, up |-> 0]
+Hints(n) == {<<n, n>>, <<0, -1>>, <<n, -1>>, <<0, n>>, <<0, n + 3>>, <<n, n + 1>>} \cup (IF n > 0 THEN {<<n - 1, n>>, <<1, -1>>} ELSE {})
+Iters == { [kind |-> k, xs |-> [i \in 1..(IF k = "array" THEN n ELSE 2 * n) |-> FromNat(IF i % 3 = 0 THEN 500 ELSE i)], low |-> h[1], up |-> h[2]] :
+             k \in {"array", "map"}, n \in {0, 1, 2, 23, 24}, h \in UNION { Hints(m) : m \in {0, 1, 2, 23, 24} } }
+ItersQ == { c \in Iters : LET n == IF c.kind = "array" THEN Len(c.xs) ELSE Len(c.xs) \div 2 IN <<c.low, c.up>> \in Hints(n) }
+Init == ph = "start" /\ calls = <<>> /\ it = NoIt
+Next == \/ ph = "start" /\ ph' = "iter" /\ it' \in ItersQ /\ UNCHANGED calls
+        \/ ph = "start" /\ ph' = "single" /\ calls' \in { <<c>> : c \in { x \in SingleCalls : FitsM(x.m, x.neg, x.mag) } } /\ UNCHANGED it
         \/ ph = "start" /\ ph' = "single" /\ calls' \in { <<[m |-> "simple", i |-> n]>> : n \in 0..255 }
                                                   \cup { <<[m |-> m, n |-> a]>> : m \in {"tag", "array", "map"}, a \in Boundary }
                                                   \cup { <<[m |-> "char", i |-> n]>> : n \in {0, 23, 24, 255, 256, 55295, 57344, 65535, 65536, 1114111} }
                                                   \cup { <<[m |-> "bool", b |-> b]>> : b \in BOOLEAN }
                                                   \cup { <<[m |-> m]>> : m \in {"null", "undefined", "begin_array", "begin_map", "begin_bytes", "begin_str", "end"} }
                                                   \cup { <<[m |-> m, b |-> [i \in 1..n |-> (i * 7) % 128]]>> : m \in {"bytes", "str"}, n \in {0, 1, 23, 24, 25} }
-        \/ ph = "start" /\ ph' = "seq" /\ calls' = <<>>
-        \/ ph = "seq" /\ Len(calls) < MaxCalls /\ ph' = "seq" /\ \E c \in Alphabet : calls' = Append(calls, c)
-Emit == /\ (ph' = "single") => PrintT(<<"CASE", ToJson([fam |-> "enc", name |-> calls'[1].m, in |-> calls'[1], exp |-> EncCall(calls'[1])])>>)
+           /\ UNCHANGED it
+        \/ ph = "start" /\ ph' = "seq" /\ calls' = <<>> /\ UNCHANGED it
+        \/ ph = "seq" /\ Len(calls) < MaxCalls /\ ph' = "seq" /\ (\E c \in Alphabet : calls' = Append(calls, c)) /\ UNCHANGED it
+Emit == /\ (ph' = "iter") => PrintT(<<"CASE", ToJson([fam |-> "encit", name |-> it'.kind, in |-> it', exp |-> EncIter(it')])>>)
+        /\ (ph' = "single") => PrintT(<<"CASE", ToJson([fam |-> "enc", name |-> calls'[1].m, in |-> calls'[1], exp |-> EncCall(calls'[1])])>>)
         /\ (ph' = "seq" /\ calls' # <<>> /\ ~Run(S0, calls').bad) =>
               PrintT(<<"CASE", ToJson([fam |-> "encseq", name |-> "calls", in |-> [calls |-> calls'],
                                        exp |-> {Ok(VBytes(CallsBytes(calls')), Len(CallsBytes(calls')))}])>>)
 Out == CallsBytes(calls)
+\* whatever the hint, the iterator encoders write one well-formed item denoting the same array / map
+IterOK == ph = "iter" => LET b == IterBytes(it.kind, it.xs, it.low, it.up)
+                             n == IF it.kind = "array" THEN Len(it.xs) ELSE Len(it.xs) \div 2 IN
+                         WellFormedItem(b) /\ Tree(b) = Tree(IterBytes(it.kind, it.xs, n, n))
 \* one call = one well-formed item carrying exactly the value given, in shortest form
 SingleOK == (ph = "single" /\ IsScalarCall(calls[1]) /\ CallBytes(calls[1]) # <<-1>>) =>
                /\ WellFormedItem(Out) /\ IsPreferred(Out)
